@@ -187,7 +187,33 @@ pub fn run_plan(ctx: &Ctx, reg: &Registry, plan: &Plan, report: &mut Report) {
                     }
                     if !ok {
                         if let Some(slow) = &op.slow {
-                            match slow(a, b, c) {
+                            let verdict = if op.differential {
+                                // the other spelling is crate code too: guard it the same way
+                                rt::enter(slot, opi, a, b, c);
+                                let r = rt::guarded(|| slow(a, b, c));
+                                rt::leave(slot);
+                                match r {
+                                    Ok(v) => v,
+                                    Err(m) => {
+                                        l.fail_count += 1;
+                                        l.cov.failures += 1;
+                                        if (l.fails.len() as u64) < rt::MAX_FAIL_PER_OP {
+                                            l.fails.push(Failure {
+                                                op: op.name.clone(),
+                                                kind: "panic".into(),
+                                                inputs: inp[..arity].to_vec(),
+                                                got: format!("0x{:x}", got),
+                                                want: "PANIC in the other spelling".into(),
+                                                note: m,
+                                            });
+                                        }
+                                        None
+                                    }
+                                }
+                            } else {
+                                slow(a, b, c)
+                            };
+                            match verdict {
                                 None => {
                                     l.cov.skipped += 1;
                                     ok = true;
@@ -268,6 +294,20 @@ pub fn run_plan(ctx: &Ctx, reg: &Registry, plan: &Plan, report: &mut Report) {
                 if slot.phase.load(std::sync::atomic::Ordering::Relaxed) == 1 {
                     rt::leave(slot);
                     l.cov.evaluations += 1;
+                    if op.differential {
+                        // spelling equivalence: the other spelling must panic as well
+                        if let Some(slow) = &op.slow {
+                            let (a, b, c) = (inp[0], inp[1], inp[2]);
+                            rt::enter(slot, opi, a, b, c);
+                            let other = rt::guarded(|| slow(a, b, c));
+                            rt::leave(slot);
+                            if other.is_err() {
+                                l.cov.skipped += 1;
+                                i += 1;
+                                continue;
+                            }
+                        }
+                    }
                     l.fail_count += 1;
                     l.cov.failures += 1;
                     if (l.fails.len() as u64) < rt::MAX_FAIL_PER_OP {
